@@ -2,7 +2,7 @@
    adapter model (c11_check) and the engine contract (c11_oracle) judge the answers. *)
 From KB Require Export Model.Adapters.
 
-Inductive eng := EMem | EBadger | ETiKV | EWrapMem | EWrapBadger.
+Inductive eng := EMem | EBadger | ETiKV | EWrapMem | EWrapBadger | EWrapTiKV.
 
 Definition adapter_of (e : eng) : adapter :=
   match e with
@@ -11,6 +11,7 @@ Definition adapter_of (e : eng) : adapter :=
   | ETiKV => tikv
   | EWrapMem => wrapper memkv
   | EWrapBadger => wrapper badger
+  | EWrapTiKV => wrapper tikv
   end.
 
 (* which reading of DelCurrent the engine implements (interface.go:75-77 allows both) *)
@@ -34,7 +35,10 @@ Inductive sop :=
 | SDel (k : bytes)
 | SIter (a b : bytes) (limit : N)               (* open, Next until io.EOF, close *)
 | SHold (a b : bytes) (limit : N) (j : nat)     (* open, Next j+1 times (or until io.EOF), keep the iterator *)
-| SDelCur.                                      (* KvStorage.DelCurrent(the held iterator) *)
+| SDelCur                                       (* KvStorage.DelCurrent(the held iterator) *)
+| SHoldDrain (a b : bytes) (limit : N) (j : nat) (ops : list sbop).
+    (* open an iterator, Next j+1 times (or until io.EOF), commit the batch `ops`, Next until io.EOF, close:
+       "from one consistent snapshot" — what is drained after the batch still belongs to the moment of creation *)
 
 Inductive obs :=
 | OBatch (c : rclass) (cf : option conflict)
@@ -42,7 +46,8 @@ Inductive obs :=
 | ODel (c : rclass)
 | OIter (c : rclass) (out : store)
 | OHold (c : rclass) (out : store) (held : bool)
-| ODelCur (c : rclass) (cf : option conflict).
+| ODelCur (c : rclass) (cf : option conflict)
+| OHoldDrain (c : rclass) (before : store) (bc : rclass) (bcf : option conflict) (after : store).
 
 (* mk_c11: an operation sequence from the emptied engine, the answer to every step, the raw contents at the end.
    KBigBatch: one batch of n Puts on distinct keys of keylen bytes, followed (failing = true) by a CAS on a key that
@@ -54,13 +59,6 @@ Inductive c11_case :=
    with an error of class `injected`; the class the wrapper's caller sees, and whether the stored record is still
    there afterwards.  The wrapper model is a pass-through: the error must arrive unchanged in class. *)
 | KWrapFault (kind : N) (injected observed : rclass) (intact : bool)
-(* KSnapshot: n records stored; an iterator over all of them is opened (fwd or backward), `before` records are read,
-   one batch {Put k_3, Put k_(n/2), Del k_(n-4)} is committed, the iterator is drained.  Against the content at the
-   moment the iterator was created: how many of its records are missing from (or altered in) the drained sequence,
-   how many drained records were not in it, whether the sequence is strictly monotone in the requested direction;
-   and whether the batch is in effect afterwards.  The iterators of the adapter models are functions of the state at
-   creation, so the model's answer is: nothing missing, nothing extra, in order. *)
-| KSnapshot (e : eng) (n : N) (fwd : bool) (before : N) (missing extra : N) (inorder applied : bool)
 (* KInterleave: batch 1 is begun with a guard (variant 0: CAS(guard, v1, v1); 1: CAS(guard, v1b, v1); otherwise
    PutIfNotExist(guard)) and a Put of `other`; batch 2 rewrites the guarded key and commits; batch 1 commits.
    b2first: batch 2 had committed before batch 1's Commit was called (memkv keeps its mutex from BeginBatchWrite, so
@@ -111,6 +109,15 @@ Definition a_step (A : adapter) (s : a_state A) (h : option item) (o : sop) : a_
       | Some i => let '(s', c, cf) := a_delcur A s i in (s', h, ODelCur c cf)
       | None => (s, h, ODelCur RPanic None)
       end
+  | SHoldDrain a b l j bl =>
+      (* the iterator's output is fixed when it is created; the batch commits on the engine meanwhile *)
+      let out := a_iter A s a b l in
+      match resolve_all h bl with
+      | Some ops =>
+          let '(s', c, cf) := a_batch A s ops in
+          (s', h, OHoldDrain ROk (map item_kv (firstn (S j) out)) c cf (map item_kv (skipn (S j) out)))
+      | None => (s, h, OHoldDrain RPanic [] RPanic None [])
+      end
   end.
 
 Fixpoint a_run (A : adapter) (s : a_state A) (h : option item) (ops : list sop) : a_state A * list obs :=
@@ -144,12 +151,14 @@ Definition obs_eqb (x y : obs) : bool :=
   | OIter c o, OIter c' o' => rclass_eqb c c' && store_eqb o o'
   | OHold c o h, OHold c' o' h' => rclass_eqb c c' && store_eqb o o' && Bool.eqb h h'
   | ODelCur c cf, ODelCur c' cf' => rclass_eqb c c' && opt_eqb conflict_eqb cf cf'
+  | OHoldDrain c x bc bcf y, OHoldDrain c' x' bc' bcf' y' =>
+      rclass_eqb c c' && store_eqb x x' && rclass_eqb bc bc' && opt_eqb conflict_eqb bcf bcf' && store_eqb y y'
   | _, _ => false
   end.
 
 (* The adapter models idealise the engine as unbounded: on n distinct Puts followed by a CAS on a missing key every
    model answers "condition failed" and stores nothing; without the CAS it answers ok and stores all n
-   (Proofs/Adapters.v: big_batch_model).  An engine may instead refuse a transaction for its size (Badger:
+   (Proofs/C11Kinds.v: big_batch_model, big_batch_model_ok).  An engine may instead refuse a transaction for its size (Badger:
    ErrTxnTooBig): class other, and then nothing may be stored. *)
 Definition big_check (failing : bool) (n : N) (c : rclass) (visible : N) : bool :=
   (if failing then rclass_eqb c RCond && (visible =? 0) else rclass_eqb c ROk && (visible =? n))
@@ -186,43 +195,75 @@ Definition il_view (b2first : bool) (c1 : rclass) (final : store) : il_obs :=
   (b2first, c1, match get final il_other with Some _ => true | None => false end,
    match get final il_guard with Some v => beqb v il_v2 | None => false end).
 
-(* memkv: BeginBatchWrite takes the store mutex until Commit: batch 2 runs after batch 1 *)
-Definition il_memkv (variant : N) : il_obs :=
-  let '(s0, _, _) := mem_batch_run [] (il_setup variant) in
-  let '(s1, c1, _) := mem_batch_run s0 (il_b1 variant) in
-  let '(s2, _, _) := mem_batch_run s1 il_b2 in
-  il_view false c1 s2.
+(* Two batches, any operations, from any state: batch 1 is begun, batch 2 is begun and committed, batch 1 is committed.
+   The result: did batch 2 commit before batch 1's Commit was called; the classes of batch 1 and batch 2; the state. *)
+
+(* memkv: BeginBatchWrite takes the store mutex until Commit: batch 2 waits, i.e. runs after batch 1 *)
+Definition tx2_memkv (s0 : store) (b1 b2 : list bop) : bool * rclass * rclass * store :=
+  let '(s1, c1, _) := mem_batch_run s0 b1 in
+  let '(s2, c2, _) := mem_batch_run s1 b2 in
+  (false, c1, c2, s2).
+
+(* the keys a TiKV batch writes when it is run on s: the keys of its transaction's buffer *)
+Definition t_written (s : store) (ops : list bop) : list bytes :=
+  match t_run s [] 1 ops with inl p => map fst p | inr _ => [] end.
 
 (* TiKV: optimistic transaction with the snapshot of BeginBatchWrite; the closures read that snapshot; the commit is
    refused (write conflict -> ErrCASFailed, batch.go:127) when a key of its own WRITE set was committed meanwhile *)
-Definition il_tikv (variant : N) : il_obs :=
-  let '(s0, _, _) := t_batch [] (il_setup variant) in
-  let '(s1, _, _) := t_batch s0 il_b2 in
-  match t_run s0 [] 1 (il_b1 variant) with
-  | inr (c, _) => il_view true c s1
+Definition tx2_tikv (s0 : store) (b1 b2 : list bop) : bool * rclass * rclass * store :=
+  let '(s1, c2, _) := t_batch s0 b2 in
+  match t_run s0 [] 1 b1 with
+  | inr (c, _) => (true, c, c2, s1)
   | inl p =>
-      if existsb (fun e => touches (map bop_key il_b2) (fst e)) p
-      then il_view true RCond s1
-      else il_view true ROk (t_apply s1 p)
+      if existsb (fun e => touches (t_written s0 b2) (fst e)) p
+      then (true, RCond, c2, s1)
+      else (true, ROk, c2, t_apply s1 p)
   end.
+
+(* the keys a Badger batch reads from the store (not from its own pending writes), and the keys it writes *)
+Fixpoint b_readset (s : bstate) (p : pending) (idx : nat) (ops : list bop) : list bytes :=
+  match ops with
+  | [] => []
+  | o :: rest =>
+      let r := if bop_reads o then match get p (bop_key o) with None => [bop_key o] | Some _ => [] end else [] in
+      match b_closure s p idx o with
+      | inl p' => r ++ b_readset s p' (S idx) rest
+      | inr _ => r
+      end
+  end.
+
+Definition b_written (s : bstate) (ops : list bop) : list bytes :=
+  match b_run s [] 0 ops with inl p => map fst p | inr _ => [] end.
 
 (* Badger: serialisable snapshot isolation: the commit is refused (badger.ErrConflict, which batch.Commit turns into
    ErrCASFailed) when a key the transaction has READ was committed meanwhile *)
+Definition tx2_badger (s0 : bstate) (b1 b2 : list bop) : bool * rclass * rclass * bstate :=
+  let '(s1, c2, _) := b_batch s0 b2 in
+  match b_run s0 [] 0 b1 with
+  | inr (c, _) => (true, c, c2, s1)
+  | inl p =>
+      if existsb (touches (b_written s0 b2)) (b_readset s0 [] 0 b1)
+      then (true, RCond, c2, s1)
+      else (true, ROk, c2, b_commit s1 p)
+  end.
+
+(* the three guard shapes the driver runs *)
+Definition il_memkv (variant : N) : il_obs :=
+  let '(s0, _, _) := mem_batch_run [] (il_setup variant) in
+  let '(b2first, c1, _, sf) := tx2_memkv s0 (il_b1 variant) il_b2 in il_view b2first c1 sf.
+
+Definition il_tikv (variant : N) : il_obs :=
+  let '(s0, _, _) := t_batch [] (il_setup variant) in
+  let '(b2first, c1, _, sf) := tx2_tikv s0 (il_b1 variant) il_b2 in il_view b2first c1 sf.
+
 Definition il_badger (variant : N) : il_obs :=
   let '(s0, _, _) := b_batch (mk_bstate [] 0) (il_setup variant) in
-  let '(s1, _, _) := b_batch s0 il_b2 in
-  match b_run s0 [] 0 (il_b1 variant) with
-  | inr (c, _) => il_view true c (b_store s1)
-  | inl p =>
-      if existsb (fun o => bop_reads o && touches (map bop_key il_b2) (bop_key o)) (il_b1 variant)
-      then il_view true RCond (b_store s1)
-      else il_view true ROk (b_store (b_commit s1 p))
-  end.
+  let '(b2first, c1, _, sf) := tx2_badger s0 (il_b1 variant) il_b2 in il_view b2first c1 (b_store sf).
 
 Definition il_expected (e : eng) (variant : N) : il_obs :=
   match e with
   | EMem | EWrapMem => il_memkv variant
-  | ETiKV => il_tikv variant
+  | ETiKV | EWrapTiKV => il_tikv variant
   | EBadger | EWrapBadger => il_badger variant
   end.
 
@@ -244,6 +285,47 @@ Definition il_oracle (e : eng) (x : il_obs) : option N :=
     else Some 0
   else ok_if (rclass_eqb c1 ROk && other && guard2).
 
+(* ---------- validity, evaluated ---------- *)
+
+(* the static preconditions of the two open deviations: TiKV is given no empty value (finding C11-F1); Badger no
+   DelCurrent(held) after a write in the same batch (finding C11-F2).  Sequences that violate them are the findings'
+   witnesses and explorations; every other case is covered by C11_oracle_sound. *)
+Definition sbop_nonemptyb (o : sbop) : bool :=
+  match o with
+  | BPutNX _ [] _ | BPut _ [] _ | BCAS _ [] _ _ => false
+  | _ => true
+  end.
+
+Fixpoint no_delcur_after_writeb (l : list sbop) (written : bool) : bool :=
+  match l with
+  | [] => true
+  | BDelCurH :: rest => negb written && no_delcur_after_writeb rest written
+  | BDel _ :: rest => no_delcur_after_writeb rest written
+  | _ :: rest => no_delcur_after_writeb rest true
+  end.
+
+Definition sbatch_okb (e : eng) (l : list sbop) : bool :=
+  match e with
+  | EMem | EWrapMem => true
+  | ETiKV | EWrapTiKV => forallb sbop_nonemptyb l
+  | EBadger | EWrapBadger => no_delcur_after_writeb l false
+  end.
+
+Definition sop_okb (e : eng) (o : sop) : bool :=
+  match o with
+  | SBatch l | SHoldDrain _ _ _ _ l => sbatch_okb e l
+  | _ => true
+  end.
+
+Definition not_panicb (ob : obs) : bool :=
+  match ob with OBatch RPanic _ | ODelCur RPanic _ | OHoldDrain RPanic _ _ _ _ => false | _ => true end.
+
+Definition c11_cleanb (c : c11_case) : bool :=
+  match c with
+  | mk_c11 e steps _ => forallb (sop_okb e) (map fst steps) && forallb not_panicb (map snd steps)
+  | _ => true
+  end.
+
 Definition c11_check (c : c11_case) : bool :=
   match c with
   | mk_c11 e steps final =>
@@ -252,7 +334,6 @@ Definition c11_check (c : c11_case) : bool :=
       list_eqb obs_eqb obs (map snd steps) && store_eqb (a_dump A sf) final
   | KBigBatch _ n _ failing c visible => big_check failing n c visible
   | KWrapFault _ injected observed intact => rclass_eqb observed injected && intact
-  | KSnapshot _ _ _ _ missing extra inorder applied => (missing =? 0) && (extra =? 0) && inorder && applied
   | KInterleave e variant b2first c1 other guard2 => il_obs_eqb (il_expected e variant) (b2first, c1, other, guard2)
   end.
 
@@ -312,7 +393,7 @@ Fixpoint written_before_delcur (ops : list bop) (seen : list bytes) : bool :=
 
 Definition batch_finding (e : eng) (ops : list bop) (c : rclass) : N :=
   match e with
-  | ETiKV => if has_empty_write ops && rclass_eqb c ROther then 1 else 0
+  | ETiKV | EWrapTiKV => if has_empty_write ops && rclass_eqb c ROther then 1 else 0
   | EBadger | EWrapBadger => if written_before_delcur ops [] && rclass_eqb c ROk then 2 else 0
   | EMem | EWrapMem => 0
   end.
@@ -351,6 +432,17 @@ Definition o_step_gen (m : dcmode) (fnd : list bop -> rclass -> N) (cs : cstore)
       | Some i => batch [DelCur (fst (fst i)) (snd (fst i)) (snd i)] c cf
       | None => inr 0
       end
+  | SHoldDrain a b l j bl, OHoldDrain c before bc bcf after =>
+      (* everything the iterator delivered, before and after the batch, is judged against the contract state at the
+         moment the iterator was created; the batch is judged as any other batch *)
+      let all := citems m cs a b in
+      match resolve_all h bl with
+      | Some ops =>
+          if rclass_eqb c ROk && is_prefix (before ++ after) (map item_kv all) &&
+             Nat.leb (min_count l (length all)) (length (before ++ after)) && Nat.leb (length before) (S j)
+          then batch ops bc bcf else inr 0
+      | None => inr 0
+      end
   | _, _ => inr 0
   end.
 
@@ -385,6 +477,5 @@ Definition c11_oracle (c : c11_case) : option N :=
       end
   | KBigBatch _ n _ failing c visible => big_oracle failing n c visible
   | KWrapFault _ injected observed intact => ok_if (rclass_eqb observed injected && intact)
-  | KSnapshot _ _ _ _ missing extra inorder applied => ok_if ((missing =? 0) && (extra =? 0) && inorder && applied)
   | KInterleave e _ b2first c1 other guard2 => il_oracle e (b2first, c1, other, guard2)
   end.
